@@ -491,7 +491,52 @@ var c09ProjectFiles = map[string]string{
 	"pmain.lua":      "require(\"pa\")\nrequire(\"pb\")\nrequire(\"pc\")\nrequire(\"pd\")\nrequire(\"pt\")\nrequire(\"pu\")\nrequire(\"pv\")\nlocal function run()\n  _G.pfoo(1, 2)\n  _G.PGT.f(1, 2)\nend\nrun()\n",
 }
 
+// further project-mode worlds: (1) plain globals of files required two levels down, merged per project; (2) two entry files
+// with equally large projects that share a file (which project answers for it); (3) two projects of which only one
+// resolves a name to the queried definition (references ask every project)
+var c09ProjectWorlds = []c09PWorld{
+	{files: c09ProjectFiles, open: "pmain.lua", probes: []c09Probe{{"pmain.lua", 8, 5, "pfoo"}, {"pmain.lua", 9, 9, "PGT.f"}}},
+	{files: map[string]string{
+		"luahelper.json": "{\"ProjectFiles\":[\"qmain.lua\"],\"ShowWarnFlag\":1}",
+		"qmain.lua":      "local function f()\n  qfoo(1, 2)\n  print(qfoo)\nend\nrequire(\"qm1\")\nrequire(\"qm2\")\nf()\n",
+		"qm1.lua":        "require(\"qa\")\n", "qm2.lua": "require(\"qb\")\n",
+		"qa.lua": "function qfoo(x) end\n", "qb.lua": "function qfoo(x, y) end\n"},
+		open: "qmain.lua", probes: []c09Probe{{"qmain.lua", 1, 3, "qfoo"}}},
+	{files: map[string]string{
+		"luahelper.json": "{\"ProjectFiles\":[\"r1.lua\",\"r2.lua\"],\"ShowWarnFlag\":1}",
+		"r1.lua":         "require(\"ra\")\nrequire(\"rshared\")\n", "r2.lua": "require(\"rb\")\nrequire(\"rshared\")\n",
+		"rshared.lua": "rfoo(1, 2)\n", "ra.lua": "function rfoo(x) end\n", "rb.lua": "function rfoo(x, y) end\n"},
+		open: "rshared.lua", probes: []c09Probe{{"rshared.lua", 0, 1, "rfoo"}}},
+	{files: map[string]string{
+		"luahelper.json": "{\"ProjectFiles\":[\"s1.lua\",\"s2.lua\"],\"ShowWarnFlag\":1}",
+		"s1.lua":         "require(\"sdef\")\nrequire(\"suse\")\nrequire(\"sextra\")\n", "s2.lua": "require(\"sdef\")\nrequire(\"sb\")\nrequire(\"suse\")\n",
+		"sdef.lua": "function sfoo(x) end\n", "sb.lua": "function sfoo(x, y) end\n", "suse.lua": "local function f()\n  sfoo(1)\nend\nf()\n",
+		"sextra.lua": "require(\"sextra2\")\n", "sextra2.lua": "local z = 1\nprint(z)\n"},
+		open: "sdef.lua", probes: []c09Probe{{"sdef.lua", 0, 10, "sfoo"}}},
+}
+
+type c09Probe struct {
+	file      string
+	line, col int
+	tag       string
+}
+type c09PWorld struct {
+	files  map[string]string
+	open   string
+	probes []c09Probe
+}
+
 func c09ProjectMode(res *lib.Result, wi, reps int) error {
+	for k, w := range c09ProjectWorlds {
+		if err := c09ProjectWorld(res, wi*10+k, reps, w); err != nil {
+			return err
+		}
+	}
+	return nil
+}
+
+func c09ProjectWorld(res *lib.Result, wi, reps int, world c09PWorld) error {
+	c09ProjectFiles := world.files
 	var worldText strings.Builder
 	var names []string
 	for f := range c09ProjectFiles {
@@ -517,7 +562,7 @@ func c09ProjectMode(res *lib.Result, wi, reps int) error {
 			return nil
 		}
 		obs := map[string]string{}
-		sess.DidOpen("pmain.lua", c09ProjectFiles["pmain.lua"])
+		sess.DidOpen(world.open, c09ProjectFiles[world.open])
 		sess.Sync()
 		for f, ds := range sess.DiagView() {
 			var l []string
@@ -527,16 +572,24 @@ func c09ProjectMode(res *lib.Result, wi, reps int) error {
 			sort.Strings(l)
 			obs["diag:"+f] = strings.Join(l, " | ")
 		}
-		for _, kp := range [][3]interface{}{{"pfoo", 8, 5}, {"PGT.f", 9, 9}} {
-			if locs, err := sess.Definition("pmain.lua", kp[1].(int), kp[2].(int)); err == nil {
+		for _, kp := range world.probes {
+			if locs, err := sess.Definition(kp.file, kp.line, kp.col); err == nil {
 				var l []string
 				for _, x := range locs {
 					l = append(l, sess.Rel(x.URI)+":"+locOfRange(x.Range))
 				}
-				obs["def:"+kp[0].(string)] = strings.Join(l, " ")
+				obs["def:"+kp.tag] = strings.Join(l, " ")
 			}
-			if hov, err := sess.Hover("pmain.lua", kp[1].(int), kp[2].(int)); err == nil {
-				obs["hover:"+kp[0].(string)] = hov
+			if hov, err := sess.Hover(kp.file, kp.line, kp.col); err == nil {
+				obs["hover:"+kp.tag] = hov
+			}
+			if locs, err := sess.References(kp.file, kp.line, kp.col, true); err == nil {
+				var l []string
+				for _, x := range locs {
+					l = append(l, sess.Rel(x.URI)+":"+locOfRange(x.Range))
+				}
+				sort.Strings(l)
+				obs["refs:"+kp.tag] = strings.Join(l, " ")
 			}
 		}
 		sess.Close()
@@ -577,7 +630,17 @@ func c09CapWorld(res *lib.Result, wi, reps int) error {
 		}
 		files[fmt.Sprintf("cap%d.lua", f)] = strings.Join(ls, "\n") + "\n"
 	}
-	caseText := "three files cap0.lua, cap1.lua, cap2.lua with 90 globals abxNNN / abyNNN / abzNNN each; workspace/symbol \"ab\" (270 equally scored matches, cap 200)"
+	// … and ONE file with more matches than the cap (the worker that serves it cuts its own list before the merge): the
+	// exact name must survive both cuts
+	{
+		var ls []string
+		ls = append(ls, "abconf = 1")
+		for k := 0; k < 300; k++ {
+			ls = append(ls, fmt.Sprintf("my_abconf_value_%03d = %d", k, k))
+		}
+		files["capbig.lua"] = strings.Join(ls, "\n") + "\n"
+	}
+	caseText := "three files cap0.lua, cap1.lua, cap2.lua with 90 globals abxNNN / abyNNN / abzNNN each, capbig.lua with abconf and 300 globals my_abconf_value_NNN; workspace/symbol \"ab\" and \"abconf\" (more equally scored matches than the cap of 200)"
 	var first string
 	for rep := 0; rep < reps; rep++ {
 		runtime.GOMAXPROCS([]int{1, 2, 16}[rep%3])
@@ -593,6 +656,10 @@ func c09CapWorld(res *lib.Result, wi, reps int) error {
 			return nil
 		}
 		ws, err := sess.WorkspaceSymbol("ab")
+		var ws2 []lib.SymbolInfo
+		if err == nil {
+			ws2, err = sess.WorkspaceSymbol("abconf")
+		}
 		sess.Close()
 		os.RemoveAll(dir)
 		if err != nil {
@@ -604,7 +671,18 @@ func c09CapWorld(res *lib.Result, wi, reps int) error {
 			sl = append(sl, y.Name)
 		}
 		sort.Strings(sl)
-		got := strings.Join(sl, " ")
+		var sl2 []string
+		exact := false
+		for _, y := range ws2 {
+			sl2 = append(sl2, y.Name)
+			exact = exact || y.Name == "abconf"
+		}
+		sort.Strings(sl2)
+		if !exact {
+			res.AddViolation("impl-vs-spec", fmt.Sprintf("workspace/symbol \"abconf\" (%d answers) does not contain the global abconf itself", len(ws2)), caseText, false)
+			break
+		}
+		got := strings.Join(sl, " ") + " || " + strings.Join(sl2, " ")
 		res.Dist("runs.symbol-cap")
 		if rep == 0 {
 			first = got
